@@ -169,7 +169,7 @@ def run_scenario(sc: dict) -> dict:
                 "cfg": cfg, "dry": dry, "req": req, "out_existed": out_existed,
                 "events": [[e[0], R.canon(e[1], root)] for e in res["events"]],
                 "prints": [R.canon(x, root) for x in res["prints"]],
-                "err": res["err"], "tb": R.canon(res.get("tb") or "", root)[-600:],
+                "err": res["err"], "tb": R.canon(res.get("tb") or "", root)[-600:], "raised_in": res.get("raised_in"),
                 "created": created, "deleted": deleted, "changed": changed, "dir_mtime": dir_mtime, "gen_bad": gen_bad,
                 "after_py": sorted(R.CANON + "/" + k for k, v in after.items() if v[0] == "f" and k.endswith(".py")),
                 "after_dirs": sorted(R.CANON + "/" + k for k, v in after.items() if v[0] == "d"),
@@ -276,14 +276,30 @@ def first_source_write(trace):
     return None
 
 
+ANCHORED = ("cdd/compound/exmod.py", "cdd/compound/exmod_utils.py", "cdd/shared/emit/file.py", "cdd/shared/pkg_utils.py", "cdd/__main__.py",
+            "cdd/shared/pure_utils.py")
+
+
+def outside_domain(st: dict) -> bool:
+    """the real run ended with an exception raised *inside code the model assumes to return* (parsers, emitters, import
+    inference / module merging in ast_utils, black, …), i.e. not in one of the modelled files"""
+    f = st.get("raised_in")
+    return bool(st["err"]) and bool(f) and "/cdd/" in f and not f.endswith(ANCHORED)
+
+
 def compare(st: dict, m: dict):
-    """observed vs model. Returns None when they agree, else a short description."""
+    """observed vs model. Returns None when they agree, "outside-domain" when the model abstains, else a description."""
     if "error" in m:
         return "model error: %s" % m["error"]
     obs = [e for e in st["events"] if e[0] in ("mkdir", "open-a", "open-w")]
     extra = [e for e in st["events"] if e[0] not in ("mkdir", "open-a", "open-w")]
     mt = [e for e in m["trace"] if e[0] != "print"]
     mp = [e[1] for e in m["trace"] if e[0] == "print"]
+    if outside_domain(st) and not extra:
+        # the model's trace must still begin with everything that was observed before the exception
+        if obs == mt[: len(obs)] and st["prints"] == mp[: len(st["prints"])]:
+            return "outside-domain"
+        return "before an exception in assumed code (%s in %s) the effects differ: real %s model %s" % (st["err"], st["raised_in"], obs[-2:], mt[max(0, len(obs) - 2): len(obs)])
     i1, i2 = first_source_write(obs), first_source_write(mt)
     if i1 is not None or i2 is not None:
         # exmod overwrote part of its own input: from there on its behaviour depends on re-parsing generated code
@@ -356,7 +372,12 @@ def evaluate(chk: core.Check, scenarios: list, label: str):
                           ("effects", "0" if not st["events"] else "1-9" if len(st["events"]) < 10 else "10-49" if len(st["events"]) < 50 else "50+")):
             d = cov.setdefault("dist_" + name, {})
             d[val] = d.get(val, 0) + 1
-        if why:
+        if why == "outside-domain":
+            cov["outside_domain"] = cov.get("outside_domain", 0) + 1
+            d = cov.setdefault("outside_domain_kinds", {})
+            kd = "%s in %s" % (st["err"], (st.get("raised_in") or "").split("/cdd/")[-1])
+            d[kd] = d.get(kd, 0) + 1
+        elif why:
             n_dis += 1
             if n_dis <= 5:
                 rd = core.VERIF / "replays" / "C20"
